@@ -55,7 +55,7 @@ static const size_t stream_len[NSTREAM] = { LEN_A, LEN_B, LEN_D };
 #define MAXR 4
 #define MAXQ 1024
 #define GUARD 64
-#define MAXX 256       /* transfers per (peer, kind) */
+#define MAXX 512       /* transfers per (peer, kind) */
 
 static int rank, nproc;
 static parsec_comm_engine_t *ce;
